@@ -622,7 +622,13 @@ func (g *progGen) block(env genv, d int, n int) string {
 			sb.WriteString("{switch " + g.expr(env, k, d-1) + "}" + g.nl())
 			for j := 0; j < 1+g.r.Intn(3); j++ {
 				sb.WriteString("{case " + g.expr(env, k, 0))
-				if g.r.Chance(30) {
+				if g.o.scope && g.r.Chance(35) {
+					// C02: up to four values per case (the case is taken iff the switch value equals one of them)
+					g.feat("switch-multi-value")
+					for m := 1 + g.r.Intn(3); m > 0; m-- {
+						sb.WriteString(", " + g.expr(env, k, 0))
+					}
+				} else if g.r.Chance(30) {
 					sb.WriteString(", " + g.expr(env, k, 0))
 				}
 				sb.WriteString("}" + g.nl() + g.block(env, d-1, 1))
